@@ -31,9 +31,9 @@ ASSUMPTIONS = ["a crash is os._exit at the failpoint (no Python-level cleanup ru
                "bounded recovery: the first call after faults stop may recompute, the third must be served"]
 TIMEOUT = 1800
 WORKERS = {"quick": 16, "thorough": 16}
-SCENARIOS_QUICK = ["first", "same_bytes", "override", "exception", "big", "big_small_cache"]
+SCENARIOS_QUICK = ["first", "same_bytes", "override", "exception", "big", "big_small_cache", "array_small_cache"]
 SCENARIOS_ALL = ["first", "same_bytes", "after_forget", "override", "none_override", "partition", "metadata_path",
-                 "memory_cache", "exception", "big", "big_same_bytes", "big_small_cache"]
+                 "memory_cache", "exception", "big", "big_same_bytes", "big_small_cache", "array_small_cache"]
 VARIANTS = ["crash-before", "crash-mid", "error", "error-write", "fsize"]
 BIG = 300 * 1024
 
@@ -60,6 +60,10 @@ def table(scenario):
         return ("__raise__", ValueError, ("scenario failure",))
     if scenario.startswith("big"):
         return "big-" + "y" * BIG
+    if scenario == "array_small_cache":  # larger than the cache, and the callers keep what they were handed
+        import numpy as np
+
+        return lambda: np.arange(3000, dtype="int64")
     return "result-string-" + "y" * 30
 
 
@@ -76,6 +80,10 @@ def expected(scenario):
         return ("raise", "ValueError")
     if scenario.startswith("big"):
         return ("ret", "big-" + "y" * BIG)
+    if scenario == "array_small_cache":
+        import numpy as np
+
+        return ("ret", np.arange(3000, dtype="int64"))
     return ("ret", "result-string-" + "y" * 30)
 
 
@@ -83,11 +91,14 @@ def install(root, scenario):
     from vf import ffuncs
 
     meta = os.path.join(root, "meta") if scenario == "metadata_path" else None
-    cache = 16 if scenario == "memory_cache" else (4 * env.KIB if scenario == "big_small_cache" else None)  # (large result, tiny cache)
+    cache = 16 if scenario == "memory_cache" else (4 * env.KIB if scenario in ("big_small_cache", "array_small_cache") else None)  # (large result, tiny cache)
     st = env.fs_backend(os.path.join(root, "data"), cache_mb=cache, metadata_path=meta)
     env.set_env(os.path.join(root, "env"), default_storage=st)
     ffuncs.TABLE["s"] = table(scenario)
     return st
+
+
+_KEPT = []
 
 
 def outcome(fn, scenario):
@@ -98,6 +109,7 @@ def outcome(fn, scenario):
     mark = REC.mark()
     try:
         got = ("ret", fn("s"))
+        _KEPT.append(got)  # the caller goes on using what it was handed
     except Exception as e:
         got = ("raise", type(e).__name__, str(e)[:160])
     ran = len(REC.since(mark))
